@@ -37,6 +37,11 @@ func (n Number) Int() (int, bool) {
 
 // Hash computes a hash for a Number.
 func (n Number) Hash(seed uintptr) uintptr {
+	if n != n {
+		// hash.Float64 dereferences a nil pointer for NaN; NaN never equals anything,
+		// so any fixed hash will do.
+		return hash.Uint64(0x7ff8000000000001, seed)
+	}
 	return hash.Float64(float64(n), seed)
 }
 
